@@ -19,7 +19,9 @@ import (
 	"sort"
 	"strconv"
 	"strings"
+	"syscall"
 	"testing"
+	"time"
 
 	vegeta "github.com/tsenart/vegeta/v12/lib"
 )
@@ -49,6 +51,7 @@ type cmdCase struct {
 	HTTP2     bool   `json:"http2"`
 	H2C       bool   `json:"h2c"`
 	HostHdr   bool   `json:"hosthdr"`
+	Stall     bool   `json:"stall"`
 }
 
 func (c cmdCase) valid() bool {
@@ -73,6 +76,9 @@ func (c cmdCase) valid() bool {
 	if c.Timeout == "short" && c.MaxConn != 0 {
 		return false
 	}
+	if c.Rate == 2 && c.Lazy {
+		return false
+	}
 	return true
 }
 
@@ -81,6 +87,9 @@ const e2eK = 7
 func (c cmdCase) slowList() bool { return c.Rate == 0 && !c.Lazy }
 
 func (c cmdCase) pathOf(i int) string {
+	if c.Stall {
+		return "/size/100000/" + strconv.Itoa(i)
+	}
 	if c.slowList() {
 		return "/slow/20/" + strconv.Itoa(i)
 	}
@@ -116,7 +125,7 @@ func (c cmdCase) op(dir string) map[string]any {
 				base = "http://E2Eb.invalid:{{PORT}}"
 			}
 		}
-		method, own := "GET", !c.slowList() && i == 2
+		method, own := "GET", !c.slowList() && !c.Stall && i == 2
 		if own {
 			method = "POST"
 		}
@@ -125,7 +134,7 @@ func (c cmdCase) op(dir string) map[string]any {
 			if own {
 				doc.WriteString("@{{DIR}}/own.txt\n")
 			}
-			if !c.slowList() && i == 5 {
+			if !c.slowList() && !c.Stall && i == 5 {
 				doc.WriteString("X-Own: 1\n")
 			}
 			doc.WriteString("\n")
@@ -134,7 +143,7 @@ func (c cmdCase) op(dir string) map[string]any {
 			if own {
 				t["body"] = base64.StdEncoding.EncodeToString([]byte("own"))
 			}
-			if !c.slowList() && i == 5 {
+			if !c.slowList() && !c.Stall && i == 5 {
 				t["header"] = map[string][]string{"X-Own": {"1"}}
 			}
 			bs, _ := json.Marshal(t)
@@ -153,6 +162,8 @@ func (c cmdCase) op(dir string) map[string]any {
 		"-max-workers", strconv.Itoa(c.MaxW), "-workers", strconv.Itoa(c.Workers), "-max-body", strconv.Itoa(c.MaxBody)}
 	if c.Lazy {
 		args = append(args, "-lazy", "-duration", "2s") // the end of the list stops the attack long before; the bound only keeps a run finite
+	} else if c.Stall {
+		args = append(args, "-duration", "500ms", "-timeout", "100ms")
 	} else {
 		args = append(args, "-duration", "100ms")
 	}
@@ -239,7 +250,7 @@ func TestDrv_E2E(t *testing.T) {
 	pick := func(xs ...string) string { return xs[r.Intn(len(xs))] }
 	for n := 0; n < nrand; {
 		c := cmdCase{HTTP2: r.Intn(4) != 0, Server: pick("plain", "plain", "plain", "tls", "unix", "tls2", "h2c"), Trust: "na", Format: pick("http", "json"), Lazy: r.Intn(2) == 0,
-			Bad: pick("none", "none", "none", "late"), Rate: []int{0, 50, 200}[r.Intn(3)], MaxW: []int{1, 3}[r.Intn(2)], Workers: []int{1, 3}[r.Intn(2)],
+			Bad: pick("none", "none", "none", "late"), Rate: []int{0, 50, 200, 2}[r.Intn(4)], MaxW: []int{1, 3}[r.Intn(2)], Workers: []int{1, 3}[r.Intn(2)],
 			Name: pick("", "n"), Hdr: r.Intn(2) == 0, Body: r.Intn(2) == 0, Chunked: r.Intn(3) == 0, MaxBody: []int{-1, -1, 0, 2, 9}[r.Intn(5)],
 			Redirects: pick("default", "default", "nofollow"), KeepAlive: r.Intn(4) != 0, Timeout: pick("default", "default", "default", "short"),
 			ConnectTo: r.Intn(3) == 0, LAddr: r.Intn(4) == 0, Prom: r.Intn(4) == 0, MaxConn: []int{0, 0, 1, 2}[r.Intn(4)], Hosts: 1 + r.Intn(2)}
@@ -258,7 +269,25 @@ func TestDrv_E2E(t *testing.T) {
 	for k, c := range cases {
 		d := filepath.Join(dir, fmt.Sprintf("e2e%03d", k))
 		must(os.MkdirAll(d, 0o755))
-		if k%3 == 1 { // an output file left over from an earlier run, longer than the new output
+		if c.Stall {
+			// the output is a named pipe; its reader opens it, does nothing for 400 ms, then copies everything to out.real
+			fifo := filepath.Join(d, "out.bin")
+			must(syscall.Mkfifo(fifo, 0o600))
+			go func(d string) {
+				f, err := os.Open(fifo)
+				if err != nil {
+					return
+				}
+				defer f.Close()
+				time.Sleep(400 * time.Millisecond)
+				out, err := os.Create(filepath.Join(d, "out.real"))
+				if err != nil {
+					return
+				}
+				defer out.Close()
+				_, _ = io.Copy(out, f)
+			}(d)
+		} else if k%3 == 1 { // an output file left over from an earlier run, longer than the new output
 			must(os.WriteFile(filepath.Join(d, "out.bin"), bytes.Repeat([]byte("stale output of an earlier run\n"), 40000), 0o644))
 		}
 		ops = append(ops, c.op(d))
@@ -283,7 +312,12 @@ func TestDrv_E2E(t *testing.T) {
 		o := KV{"err": e, "decode_err": "", "prom_count": -1}
 		// the output file, decoded with the library's own gob decoder
 		rs := []KV{}
-		if f, err := os.Open(filepath.Join(dir, fmt.Sprintf("e2e%03d", k), "out.bin")); err == nil {
+		outName := "out.bin"
+		if c.Stall {
+			outName = "out.real"
+			time.Sleep(100 * time.Millisecond) // the copier sees the end of the pipe when the command closes it
+		}
+		if f, err := os.Open(filepath.Join(dir, fmt.Sprintf("e2e%03d", k), outName)); err == nil {
 			dec := vegeta.NewDecoder(f)
 			for {
 				var x vegeta.Result
@@ -360,6 +394,18 @@ func TestDrv_E2E(t *testing.T) {
 		if len(qs) > 300 {
 			qs, o["truncated"] = qs[:300], true
 		}
+		early, t0 := 0, int64(-1)
+		for _, q := range qs {
+			if s := q["start"].(int64); t0 < 0 || s < t0 {
+				t0 = s
+			}
+		}
+		for _, q := range qs {
+			if q["start"].(int64) < t0+350000 {
+				early++
+			}
+		}
+		o["early"] = early
 		o["reqs"] = qs
 		if text := str(m, "prom_text"); text != "" {
 			n := 0
